@@ -68,6 +68,7 @@ pub fn stage_name(l: LangId) -> &'static str {
         LangId::ArrayLang => "ops-array",
         LangId::Rise => "ops-rise",
         LangId::Fp => "ops-fp",
+        LangId::Pay => "ops-pay",
     }
 }
 
@@ -168,6 +169,7 @@ pub fn property(tier: Tier) -> Property {
         ("ops-array", LangId::ArrayLang),
         ("ops-rise", LangId::Rise),
         ("ops-fp", LangId::Fp),
+        ("ops-pay", LangId::Pay),
     ];
     for (name, l) in names {
         let mut cfg = MixedCfg::for_lang(*l);
